@@ -32,6 +32,9 @@ pub enum Entry {
     React,
     /// Each action through the direct `World` API where possible.
     WorldApi,
+    /// One `App::update()`: the actions are distributed over three ordinary `Update` systems (action i goes to
+    /// system i % 3) whose relative order is `Program::frame_order`; polling happens in `Last`.
+    Frame,
 }
 
 #[derive(Clone, Copy, Debug, PartialEq, Eq, Hash, Serialize, Deserialize)]
@@ -153,6 +156,9 @@ pub struct Program {
     pub fuel: u32,
     /// Which entity slots start with which components: `init_comps[slot][comp]`.
     pub init_comps: [[Option<u32>; NT]; NE],
+    /// Permutation index (0..6) of the three frame systems used by `Entry::Frame` ops.
+    #[serde(default)]
+    pub frame_order: u8,
 }
 
 //-------------------------------------------------------------------------------------------------------------------
@@ -303,7 +309,7 @@ pub struct Profile {
     pub init_regs: (usize, usize),
     pub fuel: u32,
     pub flavour_w: [u32; 4],
-    pub entry_w: [u32; 3],
+    pub entry_w: [u32; 4],
     pub mode_w: [u32; 3],
 }
 
@@ -324,7 +330,7 @@ impl Profile {
             init_regs: (3, 6),
             fuel: 40,
             flavour_w: [6, 2, 1, 1],
-            entry_w: [6, 2, 2],
+            entry_w: [6, 2, 2, 0],
             mode_w: [3, 4, 4],
         }
     }
@@ -483,7 +489,8 @@ pub fn gen_entry(r: &mut Rng, p: &Profile) -> Entry {
     match weighted(r, &p.entry_w) {
         0 => Entry::Syscall,
         1 => Entry::React,
-        _ => Entry::WorldApi,
+        2 => Entry::WorldApi,
+        _ => Entry::Frame,
     }
 }
 
@@ -529,5 +536,6 @@ pub fn gen_program(seed: u64, p: &Profile) -> Program {
             }
         }
     }
-    Program { name: format!("{}-{}", p.name, seed), scripts, ops, fuel: p.fuel, init_comps }
+    let frame_order = r.below(6) as u8;
+    Program { name: format!("{}-{}", p.name, seed), scripts, ops, fuel: p.fuel, init_comps, frame_order }
 }
